@@ -78,13 +78,15 @@ Theorem C05_level_types_partial : forall e sc tables targets,
 Proof. exact level_refines_t. Qed.
 Print Assumptions C05_level_types_partial.
 
-Theorem C05_simple_select_types_partial : forall (e : env) (stmt : node) (targets rvs : list node),
+Theorem C05_simple_select_types_partial : forall (e : env) (strict : bool) (stmt : node) (targets rvs : list node),
   kind_of stmt = "SelectStmt" -> kid "WithClause" stmt = Nil ->
   kid "TargetList" stmt = NList targets -> targets <> [] ->
   kid "FromClause" stmt = NList rvs -> from_items (kid "FromClause" stmt) = rvs ->
   Forall (fun rv => kind_of rv = "RangeVar") rvs ->
-  level_refs (NList [kid "FromClause" stmt; kid "WhereClause" stmt; kid "GroupClause" stmt;
-                     kid "HavingClause" stmt; kid "SortClause" stmt]) = [] ->
+  (if strict then level_refs (NList [kid "FromClause" stmt; kid "WhereClause" stmt; kid "GroupClause" stmt;
+                                     kid "HavingClause" stmt; kid "SortClause" stmt])
+   else paired_refs (NList [kid "FromClause" stmt; kid "WhereClause" stmt; kid "GroupClause" stmt;
+                            kid "HavingClause" stmt; kid "SortClause" stmt])) = [] ->
   level_subselects (NList ([kid "FromClause" stmt; kid "WhereClause" stmt; kid "GroupClause" stmt;
                             kid "HavingClause" stmt; kid "SortClause" stmt] ++ map (kid "Val") targets ++ [])) = [] ->
   level_refs (NList (map (kid "Val") targets)) = map (kid "Val") targets ->
@@ -92,7 +94,7 @@ Theorem C05_simple_select_types_partial : forall (e : env) (stmt : node) (target
   (forall sc, spec_scope (env_cat e) rvs = POk sc ->
      Forall (fun it => NoDup (map sc_name (si_cols it))) sc /\ Forall (simple_target sc) targets) ->
   forall f g,
-  match describe (env_cat e) true true (S (S f)) [] [] stmt, output_columns (S g) e [] stmt with
+  match describe (env_cat e) strict true (S (S f)) [] [] stmt, output_columns (S g) e [] stmt with
   | POk row, Ok cols => Forall2 col_rel row cols
   | PErr _, Err _ => True
   | _, _ => False
